@@ -46,6 +46,8 @@ class PolicyIteration(Plans):
             transition_matrix[mdp.absorbing_state_vec,] = 0
             discount_rates[mdp_i] = mdp.discount_rate
             state_action_reward_matrix = np.einsum("san,san->sa", transition_matrix, mdp.reward_matrix)
+            state_action_reward_matrix[mdp._unable_to_reach_absorbing,] = 0
+            state_action_reward_matrix[mdp.absorbing_state_vec,] = 0
             state_action_reward_matrices[mdp_i] = state_action_reward_matrix
             action_matrices[mdp_i] = mdp.action_matrix.astype(bool)
         
